@@ -258,7 +258,7 @@ func (r *vcReplayer) collectReports(sends []vcSent) (out []vcReportExp, ok bool)
 		}
 	}
 	for _, b := range cands {
-		if b.PrimaryBlock.SourceNode.String() == "dtn://src-admin/" { // an administrative record from the catalogue, not ours
+		if strings.HasPrefix(b.PrimaryBlock.SourceNode.String(), "dtn://src-") { // an administrative record from the catalogue, not ours
 			continue
 		}
 		// reports are compared modulo the sequence number the node assigns at transmission
